@@ -621,6 +621,99 @@ Section FrameMain2.
       + rewrite E2 in E. inversion E; subst nd. exact I.
   Qed.
 
+
+  (* the builder of a case that has not been built yet *)
+  Lemma case_open l c rows others s pp cur bs i cb :
+    CasesInv l c rows others s pp cur bs -> nthN bs i = Some (cb, false) ->
+    exists row, nthN rows i = Some row /\ cb = mkb (c + 1 + 3 * i) (c + 1 + 3 * i + 1) (c + 1 + 3 * i + 2) /\ OpenB2 l cb /\
+      nthN l (c + 1 + 3 * i) = Some (mk (Case (row ++ others) []) c) /\ c < lenN l /\ c + 1 + 3 * i + 2 < lenN l.
+  Proof.
+    intros (Hcn & Hlen & CIk) Hn.
+    assert (Li : i < lenN rows) by (rewrite <- Hlen; eapply nthN_lt; eauto).
+    destruct (nthN_some_lt rows i Li) as [row Hrow]. exists row.
+    destruct (CIk i row Hrow) as (f & Hb & Hin & Hf). cbv zeta in Hb, Hin, Hf.
+    remember (c + 1 + 3 * i) as p eqn:Hp. rewrite Hn in Hb. inversion Hb; subst cb f; clear Hb.
+    destruct Hf as [Hcase Hout]. split; [exact Hrow|]. split; [reflexivity|]. split; [|split; [exact Hcase|split]].
+    - split; [reflexivity|]. split; [reflexivity|]. exists (Case (row ++ others) []), (row ++ others), c. cbn [b_parent mkb].
+      split; [exact Hcase|]. split; [right; left; reflexivity|]. split; [exact Hin|exact Hout].
+    - eapply nthN_lt; eauto.
+    - eapply nthN_lt; eauto.
+  Qed.
+
+  (* a case has been built (its region closed) and Conditional._update_outputs has run *)
+  Lemma cases_step st st1 st2 c rows others s pp cur bs i cb row ts cur2 :
+    CasesInv (s_nodes st) c rows others s pp cur bs -> nthN bs i = Some (cb, false) -> nthN rows i = Some row ->
+    cb = mkb (c + 1 + 3 * i) (c + 1 + 3 * i + 1) (c + 1 + 3 * i + 2) ->
+    Fbase2 st1 -> KeepX (b_parent cb) (b_out cb) st st1 -> ClosedB st st1 cb ->
+    out_types st1 cb = Ok ts -> update_outputs st1 c cur ts = Ok (st2, cur2) ->
+    Fbase2 st2 /\ s_len st2 = s_len st1 /\ cur2 = Some ts /\
+    CasesInv (s_nodes st2) c rows others s pp (Some ts) (set_nth bs (N.to_nat i) (cb, true)) /\
+    (forall n, n <> c -> nthN (s_nodes st2) n = nthN (s_nodes st1) n) /\
+    nthN (s_nodes st1) (b_parent cb) = Some (mk (Case (row ++ others) ts) c) /\
+    nthN (s_nodes st1) (b_parent cb + 2) = Some (mk (Output ts) (b_parent cb)) /\
+    ((cur = Some ts /\ st2 = st1) \/
+     (cur = None /\ nthN (s_nodes st1) c = Some (mk (Conditional rows others [] s) pp) /\
+      s_nodes st2 = set_nth (s_nodes st1) (N.to_nat c) (mk (Conditional rows others ts s) pp) /\ s_links st2 = s_links st1)).
+  Proof.
+    intros CI Hn Hrow Hcb F1 KX (o & ins0 & pp0 & ts0 & o' & Ha & Hop & Hs & Eb0 & Eb1 & Eb2) Xo X2.
+    pose proof CI as (Hcn & Hlen & CIk).
+    assert (Li : i < lenN bs) by (eapply nthN_lt; eauto).
+    destruct (CIk i row Hrow) as (f & Hb & Hin & Hf). cbv zeta in Hb, Hin, Hf.
+    remember (c + 1 + 3 * i) as p eqn:Hp. subst cb. rewrite Hn in Hb. inversion Hb; subst f; clear Hb.
+    destruct Hf as [Hcase Hout].
+    cbn [b_parent b_out mkb] in *. rewrite Hcase in Ha. inversion Ha; subst o pp0; clear Ha.
+    cbn in Hs. inversion Hs; subst o'; clear Hs.
+    assert (ins0 = row ++ others) by (destruct Hop as [Q|[Q|(n0 & Q)]]; inversion Q; reflexivity). subst ins0.
+    assert (ts = ts0).
+    { unfold out_types, s_op in Xo. cbn [b_out mkb] in Xo. rewrite Eb2 in Xo. cbn in Xo. now inversion Xo. }
+    subst ts0.
+    assert (Lc : c < s_len st) by (eapply nthN_lt; eauto).
+    assert (Lp : p + 2 < s_len st) by (eapply nthN_lt; eauto).
+    assert (Hcn1 : nthN (s_nodes st1) c = nthN (s_nodes st) c) by (apply KX; lia).
+    assert (U : Fbase2 st2 /\ s_len st2 = s_len st1 /\ cur2 = Some ts /\
+                nthN (s_nodes st2) c = Some (mk (Conditional rows others ts s) pp) /\
+                (forall n, n <> c -> nthN (s_nodes st2) n = nthN (s_nodes st1) n) /\
+                (forall outs, cur = Some outs -> outs = ts) /\
+                ((cur = Some ts /\ st2 = st1) \/
+                 (cur = None /\ nthN (s_nodes st1) c = Some (mk (Conditional rows others [] s) pp) /\
+                  s_nodes st2 = set_nth (s_nodes st1) (N.to_nat c) (mk (Conditional rows others ts s) pp) /\ s_links st2 = s_links st1))).
+    { destruct (update_outputs_inv _ _ _ _ _ _ X2) as [(-> & -> & rows' & others' & o0 & s' & Eop & Eset)|(-> & -> & ->)].
+      - unfold s_op in Eop. rewrite Hcn1, Hcn in Eop. cbn in Eop. inversion Eop; subst rows' others' o0 s'; clear Eop.
+        destruct (set_op_ok _ _ _ _ Eset) as (nd & Hnd & En2 & El2). rewrite Hcn1, Hcn in Hnd. inversion Hnd; subst nd.
+        cbn [mk n_parent] in En2. destruct F1 as (M1 & CP1 & LP1).
+        split; [split; [|split]|split; [|split; [|split; [|split; [|split]]]]].
+        + rewrite En2. apply ModelOps2_set; [exact M1|reflexivity].
+        + rewrite En2. eapply CasePos_set; [exact CP1|rewrite Hcn1; exact Hcn| | |]; reflexivity.
+        + unfold LinksPos. now rewrite El2.
+        + unfold s_len. now rewrite En2, lenN_set_nth.
+        + reflexivity.
+        + rewrite En2. apply nthN_set_nth_eq. rewrite <- Hcn1 in Hcn. eapply nthN_lt; eauto.
+        + intros n Hne. rewrite En2. now apply nthN_set_nth_neq.
+        + intros outs Q. discriminate Q.
+        + right. rewrite Hcn1. auto.
+      - split; [exact F1|]. split; [reflexivity|]. split; [reflexivity|]. split; [now rewrite Hcn1|].
+        split; [auto|]. split; [intros outs Q; now inversion Q|]. left. auto. }
+    destruct U as (F2 & L2 & -> & Hcn2 & K2 & Hcur & Hst).
+    split; [exact F2|]. split; [exact L2|]. split; [reflexivity|]. split; [|split; [exact K2|split; [exact Eb0|split; [exact Eb2|exact Hst]]]].
+    split; [exact Hcn2|]. split; [now rewrite lenN_set_nth|].
+    intros k rowk Hrk. cbv zeta. destruct (N.eq_dec k i) as [->|Hki].
+    - rewrite Hrow in Hrk. inversion Hrk; subst rowk. exists true. rewrite <- Hp.
+      split; [apply nthN_set_nth_eq; lia|]. split; [rewrite K2 by lia; exact Eb1|].
+      exists ts. split; [reflexivity|]. split; [rewrite K2 by lia; exact Eb0|rewrite K2 by lia; exact Eb2].
+    - destruct (CIk k rowk Hrk) as (fk & Hbk & Hik & Hfk). cbv zeta in Hbk, Hik, Hfk. exists fk.
+      remember (c + 1 + 3 * k) as pk eqn:Hpk.
+      assert (Lk : k < lenN rows) by (eapply nthN_lt; eauto).
+      assert (Lpk : pk + 2 < s_len st).
+      { destruct fk; [destruct Hfk as (? & ? & ? & B)|destruct Hfk as [? B]]; eapply nthN_lt; eauto. }
+      assert (T : forall q, pk <= q -> q <= pk + 2 -> nthN (s_nodes st2) q = nthN (s_nodes st) q).
+      { intros q Q1 Q2. rewrite K2 by lia. apply KX; lia. }
+      split; [rewrite nthN_set_nth_neq by exact Hki; exact Hbk|]. split; [rewrite T by lia; exact Hik|].
+      destruct fk.
+      + destruct Hfk as (outs & Ec & A & B). exists outs. rewrite (Hcur _ Ec) in *.
+        split; [reflexivity|]. split; [rewrite T by lia; exact A|rewrite T by lia; exact B].
+      + destruct Hfk as [A B]. split; [rewrite T by lia; exact A|rewrite T by lia; exact B].
+  Qed.
+
   Lemma OpenB2_pos l b : OpenB2 l b -> 0 < lenN l /\ 0 < b_in b /\ 0 < b_out b.
   Proof. intros O. pose proof (OpenB2_lt _ _ O). destruct O as (Ei & Eo & _). lia. Qed.
 
@@ -802,62 +895,11 @@ Section FrameMain2.
       intros i r IHr rest IHrest strict c rows others s pp bs cur st e st' e' bs' cur' H Hc F EP CI Lblk.
       destruct (exec_CCons_inv _ _ _ _ _ _ _ _ _ _ H) as (cb & st1 & e1 & ts & st2 & cur2 & Hn & X0 & Xo & X2 & X3).
       cbn [croot_cases] in Hc. apply andb_true_iff in Hc. destruct Hc as [Hc1 Hc2].
-      pose proof CI as (Hcn & Hlen & CIk).
-      assert (Li : i < lenN rows) by (rewrite <- Hlen; eapply nthN_lt; eauto).
-      destruct (nthN_some_lt rows i Li) as [row Hrow].
-      destruct (CIk i row Hrow) as (f & Hb & Hin & Hf). cbv zeta in Hb, Hin, Hf.
-      remember (c + 1 + 3 * i) as p eqn:Hp. rewrite Hn in Hb. inversion Hb; subst cb f; clear Hb.
-      destruct Hf as [Hcase Hout].
-      assert (Lc : c < s_len st) by (eapply nthN_lt; eauto).
-      assert (OBc : OpenB2 (s_nodes st) (mkb p (p + 1) (p + 2))).
-      { split; [reflexivity|]. split; [reflexivity|]. exists (Case (row ++ others) []), (row ++ others), c. cbn [b_parent mkb].
-        split; [exact Hcase|]. split; [right; left; reflexivity|]. split; [exact Hin|exact Hout]. }
-      destruct (IHr strict _ _ _ _ _ X0 Hc1 F OBc EP) as (F1 & KX & L1 & EP1 & CF1 & (o & ins0 & pp0 & ts0 & o' & Ha & Hop & Hs & Eb0 & Eb1 & Eb2)).
-      cbn [b_parent b_out mkb] in KX, Ha, Eb0, Eb1, Eb2. rewrite Hcase in Ha. inversion Ha; subst o pp0; clear Ha.
-      cbn in Hs. inversion Hs; subst o'; clear Hs.
-      assert (ins0 = row ++ others) by (destruct Hop as [Q|[Q|(n0 & Q)]]; inversion Q; reflexivity). subst ins0.
-      assert (ts = ts0).
-      { unfold out_types, s_op in Xo. cbn [b_out mkb] in Xo. rewrite Eb2 in Xo. cbn in Xo. now inversion Xo. }
-      subst ts0.
-      assert (Lp : p + 2 < s_len st) by (eapply nthN_lt; eauto).
-      assert (Hcn1 : nthN (s_nodes st1) c = nthN (s_nodes st) c) by (apply KX; lia).
-      (* the Conditional after _update_outputs *)
-      assert (U : Fbase2 st2 /\ s_len st2 = s_len st1 /\ cur2 = Some ts /\
-                  nthN (s_nodes st2) c = Some (mk (Conditional rows others ts s) pp) /\
-                  (forall n, n <> c -> nthN (s_nodes st2) n = nthN (s_nodes st1) n) /\
-                  (forall outs, cur = Some outs -> outs = ts)).
-      { destruct (update_outputs_inv _ _ _ _ _ _ X2) as [(-> & -> & rows' & others' & o0 & s' & Eop & Eset)|(-> & -> & ->)].
-        - unfold s_op in Eop. rewrite Hcn1, Hcn in Eop. cbn in Eop. inversion Eop; subst rows' others' o0 s'; clear Eop.
-          destruct (set_op_ok _ _ _ _ Eset) as (nd & Hnd & En2 & El2). rewrite Hcn1, Hcn in Hnd. inversion Hnd; subst nd.
-          cbn [mk n_parent] in En2. destruct F1 as (M1 & CP1 & LP1).
-          split; [split; [|split]|split; [|split; [|split; [|split]]]].
-          + rewrite En2. apply ModelOps2_set; [exact M1|reflexivity].
-          + rewrite En2. eapply CasePos_set; [exact CP1|rewrite Hcn1; exact Hcn| | |]; reflexivity.
-          + unfold LinksPos. now rewrite El2.
-          + unfold s_len. now rewrite En2, lenN_set_nth.
-          + reflexivity.
-          + rewrite En2. apply nthN_set_nth_eq. rewrite <- Hcn1 in Hcn. eapply nthN_lt; eauto.
-          + intros n Hne. rewrite En2. now apply nthN_set_nth_neq.
-          + intros outs Q. discriminate Q.
-        - split; [exact F1|]. split; [reflexivity|]. split; [reflexivity|]. split; [now rewrite Hcn1|].
-          split; [auto|]. intros outs Q. now inversion Q. }
-      destruct U as (F2 & L2 & -> & Hcn2 & K2 & Hcur).
-      assert (CI2 : CasesInv (s_nodes st2) c rows others s pp (Some ts) (set_nth bs (N.to_nat i) (mkb p (p + 1) (p + 2), true))).
-      { split; [exact Hcn2|]. split; [now rewrite lenN_set_nth|].
-        intros k rowk Hrk. cbv zeta. destruct (N.eq_dec k i) as [->|Hki].
-        - rewrite Hrow in Hrk. inversion Hrk; subst rowk. exists true. rewrite <- Hp.
-          split; [apply nthN_set_nth_eq; lia|]. split; [rewrite K2 by lia; exact Eb1|].
-          exists ts. split; [reflexivity|]. split; [rewrite K2 by lia; exact Eb0|rewrite K2 by lia; exact Eb2].
-        - destruct (CIk k rowk Hrk) as (fk & Hbk & Hik & Hfk). cbv zeta in Hbk, Hik, Hfk. exists fk.
-          remember (c + 1 + 3 * k) as pk eqn:Hpk.
-          assert (Lk : k < lenN rows) by (eapply nthN_lt; eauto).
-          assert (T : forall q, pk <= q -> q <= pk + 2 -> nthN (s_nodes st2) q = nthN (s_nodes st) q).
-          { intros q Q1 Q2. rewrite K2 by lia. apply KX; lia. }
-          split; [rewrite nthN_set_nth_neq by exact Hki; exact Hbk|]. split; [rewrite T by lia; exact Hik|].
-          destruct fk.
-          + destruct Hfk as (outs & Ec & A & B). exists outs. rewrite (Hcur _ Ec) in *.
-            split; [reflexivity|]. split; [rewrite T by lia; exact A|rewrite T by lia; exact B].
-          + destruct Hfk as [A B]. split; [rewrite T by lia; exact A|rewrite T by lia; exact B]. }
+      destruct (case_open _ _ _ _ _ _ _ _ _ _ CI Hn) as (row & Hrow & Hcb & OBc & Hcase & Lc & Lp).
+      destruct (IHr strict _ _ _ _ _ X0 Hc1 F OBc EP) as (F1 & KX & L1 & EP1 & CF1 & CB).
+      destruct (cases_step _ _ _ _ _ _ _ _ _ _ _ _ _ _ _ CI Hn Hrow Hcb F1 KX CB Xo X2) as (F2 & L2 & -> & CI2 & K2 & _ & _ & _).
+      subst cb. cbn [b_parent b_out mkb] in KX. fold (s_len st) in Lc, Lp.
+      assert (Li : i < lenN rows) by (eapply nthN_lt; eauto).
       destruct (IHrest strict _ _ _ _ _ _ _ _ _ _ _ _ _ X3 Hc2 F2 EP1 CI2 ltac:(lia)) as (F' & L' & EP' & CI' & K' & CF').
       split; [exact F'|]. split; [lia|]. split; [exact EP'|]. split; [exact CI'|]. split.
       + intros n Hn' Hout'. rewrite K' by lia. rewrite K2 by lia. apply KX; lia.
